@@ -49,7 +49,7 @@ def shape_sample(rng, cfgs, n):
 # -- seeded random configurations beyond the exhaustive bounds (code -> spec)
 LITS = ["a", "b", "c", "v1"]
 PN = ["p", "q", "r", "x"]
-METHODS = ["GET", "POST", "PUT", "DELETE", "PATCH", "HEAD", "OPTIONS"]
+METHODS = ["GET", "POST", "PUT", "DELETE", "PATCH", "HEAD", "OPTIONS", "PROPFIND"]
 HKEYS = [("X-Key", "x-key"), ("X-Other", "x-other")]
 HVALS = ["v1", "v2", "V1", "V2", "tok", "Tok", "zz"]
 
@@ -415,7 +415,7 @@ def run(ctx):
         "URLs and patterns are canonical (no trailing slash, no empty segment); one parameter name per trie position",
         "open zones of the statement are 'either' in FilterP: wildcard facing zero segments (Z1), satisfied but shadowed by a more "
         "specific literal pattern (Z2), constraints not observable on that side of the transaction (Z3), header value differing only "
-        "by case (Z4), no method constraint vs. a method outside GET POST PUT DELETE PATCH (Z5)",
+        "by case (Z4), no method constraint vs. a method outside the nine standard methods of Filter.GetSupportedMethods (Z5)",
         "sample_percentage and expression filters are not covered",
     ]
     judge = Judge(ctx, binary)
